@@ -372,7 +372,9 @@ func tqOracle(tc tqCase, o *tqObs) (c06, c15 []string) {
 			continue
 		}
 		if lastEntry[oid] == "noaction" {
-			continue // declared by the server to need no transfer
+			// declared by the server to need no transfer (an upload it already has); a DOWNLOAD answered without
+			// an action is reported as an error since D83 — both are outcomes C06 allows, C04 judges the fetch
+			continue
 		}
 		covered := abortedWhole || strings.Contains(errText, oid) || strings.Contains(errText, fmt.Sprintf("name-%d", idx)) || (inFailedCall[oid] && len(o.Errors) > 0)
 		if !covered {
